@@ -45,6 +45,13 @@ func (b *exampleBuilder) Build(node internalSchema.Node) ([]byte, error) {
 		b.bestEffort = true
 		ex, err = b.build(node)
 	}
+	if ex != nil {
+		// The example of a literal is a window into the text of the schema
+		// (or of a type): the caller gets a copy it can write to.
+		cp := make([]byte, len(ex))
+		copy(cp, ex)
+		ex = cp
+	}
 	return ex, err
 }
 
